@@ -117,7 +117,7 @@ def check(chk: Check) -> None:
                 continue
             fi_ = F.func(q)
             selft = ('param', om.self_param(F, q))
-            lex = ('attr', selft, 'lex')
+            lex = common.lexer_term(F, selft)
             bad = []
             n_runs = 0
             for p in SymExec(F, fi_).run():
